@@ -645,10 +645,16 @@ start:
 							s.setOuter(tuple.Tag, MaybeNil)
 						}
 						s.setOuter(v, s.get(tuple.Tag).Inner)
+					} else if typ, ok := tuple.Conds[idx].(*types.Basic); ok && typ.Kind() == types.UntypedNil {
+						// A clause listing nil next to other types (case nil,
+						// *T:) binds the switched-over value itself, and there
+						// is an Extract for its nil case, too. When we get
+						// here, the interface value is nil.
+						s.set(tuple.Tag, ValueNilness{AlwaysNil, AlwaysNil})
+						s.set(v, ValueNilness{AlwaysNil, AlwaysNil})
 					} else {
-						// There is no Extract for the 'untyped nil' case,
-						// which means that executing any Extract from a type
-						// switch implies that the switched-over value wasn't a
+						// Executing the Extract of a case other than 'untyped
+						// nil' implies that the switched-over value wasn't a
 						// nil interface value.
 						s.setOuter(tuple.Tag, NeverNil)
 						typ := tuple.Conds[idx]
